@@ -216,6 +216,22 @@ class HC_phi_comp(Contract):
     props = ("C09",)
     loops = _mk_phi_loops()
     use = {"pyoma2.functions.gen.MPD": "abstract", "pyoma2.functions.gen.MPC": "abstract"}
+    generic_replay = False      # the table holds abstract vectors (the indicators are uninterpreted here): replay through a real run
+
+    def witness(self, o):
+        """replay: a real SSIdat run on seeded data with the counter-model's two limits and every other criterion switched off"""
+        hc = {}
+        try:
+            from pyvc import concretise as CZ
+            from pyvc.core import Ctx, Engine
+            ctx = Ctx(Engine(), [ch == "T" for ch in o.path])
+            with ctx:
+                env = self.setup(ctx)
+                hc = {k: CZ.ev_scalar(o.model, env[k]) for k in ("mpc_lim", "mpd_lim")}
+        except Exception:      # noqa: BLE001
+            hc = {}
+        hc.update(conj=False, xi_max=1.0, cov_max=10.0)
+        return {"driver": "c09_run", "inputs": {"cls": "SSIdat", "hc": hc, "seed": 0}}
 
     def setup(self, c):
         n0 = S.integer("n0", lo=1)
